@@ -234,6 +234,9 @@ class World:
                     if not hasattr(self, "registry2"):
                         self.registry2 = uberjob.Registry()
                     node = self.registry2.source(plan, self.new_store(i))
+                    if nd["foreign"] == "added":
+                        self.stores[i] = self.new_store(i)
+                        self.registry.add(node, self.stores[i])
                 elif k == "src":
                     if nd.get("alias"):
                         store = AliasStore(self, i, self.stores[nd["deps"][0]["n"]])
@@ -287,6 +290,9 @@ class World:
         """ARG -> (python object holding uberjob Nodes, reference structure)."""
         if "c" in a:
             o = specs_const(a["c"])
+            return o, ("obj", o)
+        if "st" in a:  # the value store object of registry entry a["st"], passed as a plain (opaque) argument
+            o = self.stores[a["st"]]
             return o, ("obj", o)
         if "n" in a:
             return self.nodes[a["n"]], ("n", a["n"])
